@@ -254,6 +254,10 @@ func buildManifest(r *rand.Rand, entries []entry, fancy bool) manifest {
 			for k, e := range entries {
 				if k > 0 {
 					x.put("," + strings.Repeat(" ", r.Intn(3)))
+					if r.Intn(4) == 0 {
+						// a flow sequence wrapped over several lines: later entries may start in smaller columns
+						x.put("\n" + strings.Repeat(" ", r.Intn(6)))
+					}
 				}
 				if e.Raw != "" {
 					m.Items = append(m.Items, ypos{x.line, x.col})
@@ -589,6 +593,24 @@ func runC15(run *core.Run) {
 		checkAliasManifest(run, text, ws)
 		run.SampleAt(i, na/2+1, func() any { return text })
 	})
+	// more offending entries than any plausible cap on the number of errors: one error each
+	for _, k := range []int{101, 150, 257} {
+		var sb strings.Builder
+		sb.WriteString("schema: '1.2'\ncontents:\n")
+		for i := 0; i < k; i++ {
+			fmt.Fprintf(&sb, "  - ../x%d.fga\n", i)
+		}
+		_, err := transformer.TransformModFile(sb.String())
+		run.Eval(1)
+		got := -1
+		if err != nil {
+			got = strings.Count(err.Error(), "* ")
+		}
+		if got != k {
+			run.Violation("error-count-differs-from-offending-entries", &core.Case{Kind: "raw", Text: sb.String()}, fmt.Sprintf("%d entry errors", k), fmt.Sprintf("%d ('* ' items in the error text)", got))
+		}
+		run.Count("manifests_with_many_offending_entries", 1)
+	}
 	// schema rules; anchors that contain an alias of themselves (the YAML library hands over a cyclic node graph)
 	for _, s := range []string{"schema: '1.2'\ncontents: &a [*a]\n", "schema: '1.2'\ncontents:\n  - core.fga\n  - &s [x.fga, *s]\n", "shared: &s [*s]\nschema: '1.2'\ncontents: [*s]\n",
 		"schema: '1.2'\ncontents: &m {k: *m}\n", "schema: &v [*v]\ncontents:\n  - a.fga\n", "schema: '1.2'\ncontents:\n  - &e {p: [*e, a.fga]}\n  - b.fga\n",
